@@ -115,6 +115,7 @@ def build_doc(payload, prolog, is_schema, urls, tns=None):
 class C13(Check):
     PROP = 'C13'
     LEVEL = 'fault_enumeration'
+    POOL_DEPENDS_ON_SEED = False      # cases are self-contained: canonical replays run under every VERIF_SEED
     GROUP = 16
     RULE = ("case = (defuse mode, channel [stream class x seekable x url attribute | text/bytes x base_url class | "
             "path | file URL | http via installed opener | http via opener=], role [instance, lazy instance, instance "
